@@ -280,6 +280,11 @@ func (c *Channel) Invoke(ctx context.Context, method string, req, resp interface
 		case r, ok := <-ch:
 			if !ok {
 				// no more messages
+				if err := ctx.Err(); err != nil {
+					// the server goroutine drops frames once the context is
+					// done, so what we have may be incomplete
+					return internal.TranslateContextError(err)
+				}
 				if !gotResponse {
 					return io.EOF
 				}
